@@ -98,14 +98,18 @@ pub fn ref_gv(v: &RefVoice, stream: usize, label_text: &str) -> Result<Option<Ga
 /// speed-1 duration law: max(round(mean), 1); `ambiguous` when the mean sits on a .5 tie
 pub fn dur_speed1(mean: f64) -> (usize, bool) {
     let d = round_half_away(mean).max(1.0) as usize;
-    (d, tie_distance(mean) < 1e-9 && mean > 0.4)
+    let t = tie_distance(mean);
+    (d, t != 0.0 && t < 1e-9 && mean > 0.4)
 }
 
 /// total-length law for speed s: max(round(F1/s), nstates); returns (value, ambiguous)
 pub fn total_at_speed(f1: usize, speed: f64, nstates: usize) -> (usize, bool) {
     let x = f1 as f64 / speed;
     let t = round_half_away(x).max(1.0) as usize;
-    (t.max(nstates), tie_distance(x) < 1e-7)
+    // an exactly representable tie (x == k + 0.5) is rounded away from zero by every correct
+    // evaluation; only near-ties depend on the evaluation order
+    let td = tie_distance(x);
+    (t.max(nstates), td != 0.0 && td < 1e-7)
 }
 
 pub fn voiced_mask(lf0: &[Vec<f64>]) -> Vec<bool> {
